@@ -252,3 +252,90 @@ func GenPreflightNested(r *hx.Rng, stageCmd string) (*Program, map[string]int) {
 	p.Top = &Call{ID: "TOPP", Callee: "TOPP", Binds: []Bind{{Param: "seed", E: Lit(hx.JInt(int64(r.Intn(1000))))}}}
 	return p, stats
 }
+
+// GenPerForkFlags builds a program of the family "a run-time condition per
+// fork": a pipeline is mapped over arrays (or typed maps) of flags and
+// values; inside it a sibling stage passes the fork's flag on, and a second
+// stage (and a mapped third one) is disabled by that output.  The condition
+// is a plain reference, yet it differs from fork to fork of the enclosing
+// map call: whatever is remembered per call instead of per fork is wrong for
+// all forks but one.  Two instances with complementary flags, one uniform.
+func GenPerForkFlags(r *hx.Rng, stageCmd string) (*Program, map[string]int) {
+	stats := map[string]int{}
+	n := 2 + r.Intn(3)
+	overMap := r.Intn(3) == 0
+	stats[fmt.Sprintf("per_fork_flags_%d", n)]++
+	p := &Program{StageCmd: stageCmd}
+	fl := &Stage{Name: "FLAG", MainOuts: map[string]*SExp{}, ChunkOutsB: map[string]*SExp{}}
+	fl.Ins = []Field{{"b", TBool}}
+	fl.Outs = []Field{{"flag", TBool}}
+	fl.MainOuts["flag"] = &SExp{K: "arg", Name: "b"}
+	ec := &Stage{Name: "ECHO", MainOuts: map[string]*SExp{}, ChunkOutsB: map[string]*SExp{}}
+	ec.Ins = []Field{{"i0", TInt}}
+	ec.Outs = []Field{{"o0", TInt}}
+	ec.MainOuts["o0"] = &SExp{K: "arg", Name: "i0"}
+	p.Stages = []*Stage{fl, ec}
+	inner := &Pipeline{Name: "INNER", Ins: []Field{{"b", TBool}, {"x", TInt}}, Outs: []Field{{"y", TInt}, {"z", TInt}}}
+	inner.Calls = []*Call{
+		{ID: "FLAG", Callee: "FLAG", Binds: []Bind{{Param: "b", E: &Exp{K: "ref", Src: "self", Out: "b"}}}},
+		{ID: "ECHO", Callee: "ECHO", Binds: []Bind{{Param: "i0", E: &Exp{K: "ref", Src: "self", Out: "x"}}},
+			Disabled: &Exp{K: "ref", Src: "FLAG", Out: "flag"}},
+		{ID: "PLAIN", Callee: "ECHO", Binds: []Bind{{Param: "i0", E: &Exp{K: "ref", Src: "self", Out: "x"}}}},
+	}
+	inner.Ret = []Bind{{Param: "y", E: &Exp{K: "ref", Src: "ECHO", Out: "o0"}}, {Param: "z", E: &Exp{K: "ref", Src: "PLAIN", Out: "o0"}}}
+	p.Pipelines = append(p.Pipelines, inner)
+	mk := func(flags []bool) (*Exp, *Exp) {
+		fe, xe := &Exp{K: "arr"}, &Exp{K: "arr"}
+		if overMap {
+			fe.K, xe.K = "obj", "obj"
+		}
+		for i, f := range flags {
+			if overMap {
+				k := fmt.Sprintf("k%d", i)
+				fe.Keys = append(fe.Keys, k)
+				xe.Keys = append(xe.Keys, k)
+			}
+			fe.Items = append(fe.Items, Lit(hx.JBool(f)))
+			xe.Items = append(xe.Items, Lit(hx.JInt(int64(10*(i+1)))))
+		}
+		return fe, xe
+	}
+	first := make([]bool, n)
+	for i := range first {
+		first[i] = i%2 == 1 // off, on, off, ...
+	}
+	if r.Bool() {
+		for i := range first {
+			first[i] = r.Bool()
+		}
+		first[0], first[n-1] = false, true
+	}
+	second := make([]bool, n)
+	for i := range second {
+		second[i] = !first[i]
+	}
+	uniform := make([]bool, n)
+	for i := range uniform {
+		uniform[i] = first[0]
+	}
+	mode, tArr := "arr", TArr(TInt)
+	if overMap {
+		mode, tArr = "map", TMap(TInt)
+		stats["per_fork_flags_over_map"]++
+	}
+	top := &Pipeline{Name: "TOPF"}
+	for k, flags := range [][]bool{first, second, uniform} {
+		id := []string{"OFF_ON", "ON_OFF", "SAME"}[k]
+		fe, xe := mk(flags)
+		top.Calls = append(top.Calls, &Call{ID: id, Callee: "INNER", Mapped: mode,
+			Binds: []Bind{{Param: "b", E: fe, Split: true}, {Param: "x", E: xe, Split: true}}})
+		for _, o := range []string{"y", "z"} {
+			on := fmt.Sprintf("%s_%s", o, id)
+			top.Outs = append(top.Outs, Field{on, tArr})
+			top.Ret = append(top.Ret, Bind{Param: on, E: &Exp{K: "ref", Src: id, Out: o}})
+		}
+	}
+	p.Pipelines = append(p.Pipelines, top)
+	p.Top = &Call{ID: "TOPF", Callee: "TOPF"}
+	return p, stats
+}
